@@ -205,6 +205,56 @@ class Ctx:
             self.samples.append(s)
 
 
+def split_blocks(lines):
+    blocks, cur = [], []
+    for ln in lines:
+        if json.loads(ln).get("ev") == "reset" and cur:
+            blocks.append(cur)
+            cur = []
+        cur.append(ln)
+    if cur:
+        blocks.append(cur)
+    return blocks
+
+
+def validate_traces(ctx, module, lines, sig_prefix, what, dfs=True, maxrej=5, sigfn=None):
+    """Validates concatenated trace blocks; returns number accepted. Rejected blocks become violations."""
+    blocks = split_blocks(lines)
+    accepted = 0
+    rej = 0
+    while blocks:
+        text = "".join(l if l.endswith("\n") else l + "\n" for b in blocks for l in b)
+        r = ctx.tlc(module, workers=1, files={"trace.ndjson": text}, dfs=dfs, expect_violation=True, timeout=1200)
+        rejected = [s for s in r["scn"] if "rejectedAt" in s]
+        if not rejected:
+            if r["violated"]:
+                raise ToolError("trace spec %s reported an error without a rejection index:\n%s" % (module, r["stdout"][-2000:]))
+            accepted += len(blocks)
+            break
+        k = rejected[0]["rejectedAt"]  # 1-based index of the first event that could not be consumed
+        pos = 0
+        bad = None
+        for i, b in enumerate(blocks):
+            if pos < k <= pos + len(b):
+                bad = i
+                break
+            pos += len(b)
+        if bad is None:
+            bad = len(blocks) - 1
+        off = k - pos
+        ev = blocks[bad][off - 1] if 0 < off <= len(blocks[bad]) else ""
+        ctx.violation(sig_prefix if not sigfn else sigfn(json.loads(ev) if ev else {}), "%s: trace rejected at event %d of its block: %s" % (what, off, ev.strip()[:300]),
+                      {"kind": "trace", "module": module, "rejected_event_index": off, "trace": [json.loads(x) for x in blocks[bad]]})
+        accepted += bad
+        blocks = blocks[bad + 1:]
+        rej += 1
+        if rej >= maxrej:
+            break
+    ctx.traces_validated += accepted + rej
+    return accepted
+
+
+
 def load_findings():
     p = os.path.join(VERIF, "known_findings.json")
     if not os.path.exists(p):
